@@ -360,6 +360,10 @@ func genMultiTagType(t *rapid.T, mg *msgGen, maxDepth int) (*structGen, desc.T) 
 	g := &structGen{t: t, mg: mg, tag: "valid", maxDepth: maxDepth, maxField: rapid.IntRange(1, 5).Draw(t, "maxField"),
 		containerMarks: []string{"required", "exist", "-"}, scalarKinds: cheapScalarKinds, unexported: true,
 		extraTags: []string{"alipay", "wechat"}}
+	if rapid.IntRange(0, 5).Draw(t, "wideType") == 3 {
+		// a wide, flat type (generated messages have dozens of fields): its analysis takes long enough to overlap with another one
+		g.maxField, g.maxDepth = rapid.SampledFrom([]int{17, 24, 40, 64}).Draw(t, "wideFields"), 0
+	}
 	g.leafRules = func(kind string, v desc.V) string { return genRuleItems(t, kind, v, mg, 3, true) }
 	ty, _ := g.genStruct(0)
 	// either / botheq groups (their per-call table is pooled state too)
